@@ -498,6 +498,10 @@ func newBuffer(br *Reader) (*buffer, error) {
 	}
 	n, err = io.ReadFull(br.r, b.data)
 	if err != nil {
+		if err == io.EOF {
+			// The record has started: its length prefix was read.
+			err = io.ErrUnexpectedEOF
+		}
 		return nil, err
 	}
 	if n != size {
